@@ -21,6 +21,17 @@
 //! ROUND 4 (run_open_and_far, same clauses): OPEN reference meshes whose free boundary edges fix a degree of freedom - an L
 //! bracket of two plates (ToPoint; slides along the fold line) and a corner of three plates (both modes) with sample grids
 //! reaching the free edges; starting guesses carrying a VERY large translation (3.6e5 .. 1.1e6 units), 3D and 2D.
+//! WAVE 5 (run_w5_3d / run_w5_2d / run_w5_zero; audit table in notes/w5_audit_C07.md; same clauses, tolerances scaled with the
+//! reference: length tolerance = 1e-9 * (part scale + value) + 2e-14 * largest coordinate; recovery is measured AT the sample
+//! points: |T*D*p - p| <= tol * part scale and rotation(T*D) == I within tol): REFERENCES that are tiny (x 2^-12, extent 1e-3),
+//! large (x 2^10) and far from the origin (3e4, 1e6), a right-angled wedge 6/4/3 with a slanted face (also with reversed and
+//! mixed winding), a scalene triangle (CCW and CW) and an OPEN hook polyline; measured sets with deviations on BOTH sides and
+//! points diagonally off an edge / beyond a vertex; sample counts 31, 33, 65, 130, 1001, 4099, 16411 (100003 in the thorough
+//! tier) clean and measured; every point twice (not neighbours); near-identity displacements (1e-8 about the part centre, 1e-8
+//! rad about the ORIGIN with a lever arm of 3e4 / 1e6; tolerance 1e-9) and displacements of 10 .. 15 degrees + 0.3; the exact
+//! answer as a non-identity starting guess with all residuals exactly 0.0 (no solver step).  HONESTY ONLY (no recovery is
+//! demanded; if the call returns Ok the residual / RSS / finiteness clauses must hold): 0 .. 24 points, starting guesses far
+//! outside the basin (50 .. 1e12 units away, quarter / half turns) - two of these make the solver fail (Err).
 use super::Report;
 use crate::common::DistMode;
 use crate::geom2::align2::points_to_curve;
@@ -653,7 +664,8 @@ fn wedge_geom5() -> (Vec<Point3>, Vec<[u32; 3]>) {
 }
 /// n points spread over the triangles of the reference (point k on triangle k % ntri, barycentric coordinates from a fixed
 /// integer sequence, at least 1/16 (barycentric) from every edge); `dev`: lifted off the face along its normal by a signed
-/// deviation +-(0.02 .. 0.08) * s varying from point to point (every third point on the INNER side)
+/// deviation +-(0.02 .. 0.08) * s varying from point to point (every third point on the INNER side; every fifth point sits
+/// diagonally off an edge of its triangle)
 fn spread3(rf: &Ref3, n: usize, dev: bool) -> Vec<Point3> {
     let nt = rf.tris.len();
     (0..n).map(|k| {
@@ -665,6 +677,14 @@ fn spread3(rf: &Ref3, n: usize, dev: bool) -> Vec<Point3> {
         if !dev { return p; }
         let nrm = (t[1] - t[0]).cross(&(t[2] - t[0])).normalize();
         let sg = if k % 3 == 1 { -1.0 } else { 1.0 };
+        if k % 5 == 4 {
+            // diagonally off the edge t0-t1 (0.04 s in the plane of the triangle, 0.03 s along its normal): on a real edge of
+            // the solid the closest mesh point lies ON that edge and the two distance modes differ
+            let e = t[1] - t[0];
+            let mut w = e.cross(&nrm).normalize();
+            if w.dot(&(t[2] - t[0])) > 0.0 { w = -w; }
+            return t[0] + e * (0.25 + 0.5 * (((i * 37 + 11) % 97) as f64 / 97.0)) + w * (0.04 * rf.s) + nrm * (sg * 0.03 * rf.s);
+        }
         p + nrm * (sg * (0.02 + 0.01 * ((k * 3) % 7) as f64) * rf.s)
     }).collect()
 }
@@ -688,7 +708,6 @@ fn eval3s(r: &mut Report, rf: &Ref3, base: &[Point3], total: &Iso3, guess: &Iso3
     r.case();
     let pts: Vec<Point3> = base.iter().map(|p| total * p).collect();
     let mode = if to_point { DistMode::ToPoint } else { DistMode::ToPlane };
-    let eps = RTOL * rf.s + 2.0e-14 * rf.omax;
     let al = match points_to_mesh(&pts, &rf.mesh, guess, mode) {
         Ok(a) => a,
         Err(_) => { if recover.is_some() { r.check(false, "3D: alignment of a displacement inside the basin succeeds", d); } return Out3 { ok: false, err: f64::NAN, tf: Iso3::identity(), res: vec![] }; }
@@ -711,11 +730,15 @@ fn eval3s(r: &mut Report, rf: &Ref3, base: &[Point3], total: &Iso3, guess: &Iso3
     let mut worst = (0usize, 0.0, 0.0);
     let mut start = 0.0;
     for (i, p) in pts.iter().enumerate() {
-        let (dist, planes) = mesh_residuals_s(&rf.tris, &(tf * p), eps);
+        // rounding scales with the largest coordinate involved (a solve that ran away can leave the points 1e8 from the reference)
+        let m = tf * p;
+        let mag = rf.omax.max(m.coords.amax());
+        let (dist, planes) = mesh_residuals_s(&rf.tris, &m, RTOL * rf.s + 2.0e-14 * mag);
         let got = al.residuals()[i];
-        let fine = if to_point { near_s(got, dist, rf.s, rf.omax) } else { planes.iter().any(|x| near_s(got, *x, rf.s, rf.omax)) };
+        let fine = if to_point { near_s(got, dist, rf.s, mag) } else { planes.iter().any(|x| near_s(got, *x, rf.s, mag)) };
         if !fine && ok { ok = false; worst = (i, got, if to_point { dist } else { planes[0] }); }
-        let (d0, pl0) = mesh_residuals_s(&rf.tris, &(guess * p), eps);
+        let m0 = guess * p;
+        let (d0, pl0) = mesh_residuals_s(&rf.tris, &m0, RTOL * rf.s + 2.0e-14 * rf.omax.max(m0.coords.amax()));
         let x = if to_point { d0 } else { pl0.iter().cloned().fold(0.0, f64::max) };
         start += x * x;
     }
@@ -749,6 +772,8 @@ fn spread2(rf: &Ref2, n: usize, dev: bool) -> Vec<Point2> {
         if !dev { return p; }
         let e = (b - a).normalize();
         let sg = if k % 3 == 1 { -1.0 } else { 1.0 };
+        // every fifth point: beyond the end vertex of its edge (0.03 s along the edge, 0.02 s along the normal)
+        if k % 5 == 4 { return b + e * (0.03 * rf.s) + Vector2::new(e.y, -e.x) * (sg * 0.02 * rf.s); }
         p + Vector2::new(e.y, -e.x) * (sg * (0.005 + 0.005 * ((k * 3) % 6) as f64) * rf.s)
     }).collect()
 }
@@ -768,7 +793,6 @@ struct Out2 { ok: bool, err: f64, tf: Iso2, res: Vec<f64> }
 fn eval2s(r: &mut Report, rf: &Ref2, base: &[Point2], total: &Iso2, guess: &Iso2, recover: Option<f64>, d: &dyn Fn() -> String) -> Out2 {
     r.case();
     let pts: Vec<Point2> = base.iter().map(|p| total * p).collect();
-    let eps = RTOL * rf.s + 2.0e-14 * rf.omax;
     let al = match points_to_curve(&pts, &rf.curve, guess) {
         Ok(a) => a,
         Err(_) => { if recover.is_some() { r.check(false, "2D: alignment of a displacement inside the basin succeeds", d); } return Out2 { ok: false, err: f64::NAN, tf: Iso2::identity(), res: vec![] }; }
@@ -791,10 +815,13 @@ fn eval2s(r: &mut Report, rf: &Ref2, base: &[Point2], total: &Iso2, guess: &Iso2
     let mut worst = (0usize, 0.0, 0.0);
     let mut start = 0.0;
     for (i, q) in pts.iter().enumerate() {
-        let want = curve_residuals_s(&rf.v, &(tf * q), eps);
+        let m = tf * q;
+        let mag = rf.omax.max(m.coords.amax());
+        let want = curve_residuals_s(&rf.v, &m, RTOL * rf.s + 2.0e-14 * mag);
         let got = al.residuals()[i];
-        if !want.iter().any(|x| near_s(got, *x, rf.s, rf.omax)) && ok { ok = false; worst = (i, got, want[0]); }
-        let w = curve_residuals_s(&rf.v, &(guess * q), eps);
+        if !want.iter().any(|x| near_s(got, *x, rf.s, mag)) && ok { ok = false; worst = (i, got, want[0]); }
+        let m0 = guess * q;
+        let w = curve_residuals_s(&rf.v, &m0, RTOL * rf.s + 2.0e-14 * rf.omax.max(m0.coords.amax()));
         let x = w.iter().map(|x| x.abs()).fold(0.0, f64::max);
         start += x * x;
     }
@@ -805,7 +832,33 @@ fn eval2s(r: &mut Report, rf: &Ref2, base: &[Point2], total: &Iso2, guess: &Iso2
     Out2 { ok: true, err, tf, res: al.residuals().to_vec() }
 }
 
-fn explore() -> bool { std::env::var("C07_EXPLORE").is_ok() }
+/// the starting guess IS the answer and every residual is exactly 0.0 at the start (dyadic samples, dyadic translation): the
+/// driver makes no step at all; the returned transform must still be the guess (not the identity) and the residuals its own
+fn run_w5_zero(r: &mut Report) {
+    let mesh = Mesh::create_box(4.0, 3.0, 2.0, false);
+    let t = box_tris(&mesh);
+    let (clean, _) = box_samples();
+    for (gx, gy, gz) in [(-256.0, 128.0, 64.0), (0.5, -0.25, 0.125), (0.0, 0.0, -1024.0)] { for to_point in [false, true] {
+        let guess = iso3((gx, gy, gz), (0.0, 0.0, 0.0));
+        let total = iso3((-gx, -gy, -gz), (0.0, 0.0, 0.0));
+        let pts: Vec<Point3> = clean.iter().map(|p| total * p).collect();
+        let d = || format!("3D box 4x3x2, sample set A: on the faces, displaced by the exactly representable translation ({:?},{:?},{:?}), starting guess = exactly the inverse translation (all residuals 0.0 at the start: no solver step), mode {}", -gx, -gy, -gz, if to_point { "ToPoint" } else { "ToPlane" });
+        eval3(r, &t, &mesh, &pts, &total, &guess, to_point, true, &d);
+    } }
+    let p = |x: f64, y: f64| Point2::new(x, y);
+    for (sn, verts) in [("closed L outline (0,0),(6,0),(6,2),(3,2),(3,4),(0,4)", vec![p(0.0, 0.0), p(6.0, 0.0), p(6.0, 2.0), p(3.0, 2.0), p(3.0, 4.0), p(0.0, 4.0), p(0.0, 0.0)]), ("closed rectangle 4x3", vec![p(0.0, 0.0), p(4.0, 0.0), p(4.0, 3.0), p(0.0, 3.0), p(0.0, 0.0)])] {
+        let curve = Curve2::from_points(&verts, 1e-8, true).unwrap();
+        let v = curve.points().to_vec();
+        let base = outline_samples(&v, false);
+        for (gx, gy) in [(-256.0, 128.0), (0.5, -0.25), (0.0, -1024.0)] {
+            let guess = Iso2::translation(gx, gy);
+            let total = Iso2::translation(-gx, -gy);
+            let pts: Vec<Point2> = base.iter().map(|q| total * q).collect();
+            let d = || format!("2D {}, sample set A: on the outline, displaced by the exactly representable translation ({:?},{:?}), starting guess = exactly the inverse translation (all residuals 0.0 at the start: no solver step)", sn, -gx, -gy);
+            eval2(r, &v, &curve, &pts, &total, &guess, true, &d);
+        }
+    }
+}
 
 fn run_w5_3d(r: &mut Report) {
     let (bv, bf) = box_geom5();
@@ -822,6 +875,8 @@ fn run_w5_3d(r: &mut Report) {
         ref3("wedge (0,0,0),(6,0,0),(0,4,0),(0,0,3)", &wv, &wf, 1.0, (0.0, 0.0, 0.0)),
         ref3("wedge (0,0,0),(6,0,0),(0,4,0),(0,0,3)", &wv, &wf, tiny, (0.0, 0.0, 0.0)),
         ref3("wedge (0,0,0),(6,0,0),(0,4,0),(0,0,3)", &wv, &wf, 1.0, (-8192.0, 4096.0, 16384.0)),
+        ref3("wedge (0,0,0),(6,0,0),(0,4,0),(0,0,3) with REVERSED winding (all normals inward)", &wv, &wf.iter().map(|f| [f[0], f[2], f[1]]).collect::<Vec<_>>(), 1.0, (0.0, 0.0, 0.0)),
+        ref3("wedge (0,0,0),(6,0,0),(0,4,0),(0,0,3) with MIXED winding (faces 1 and 3 reversed)", &wv, &wf.iter().enumerate().map(|(k, f)| if k % 2 == 1 { [f[0], f[2], f[1]] } else { *f }).collect::<Vec<_>>(), 1.0, (0.0, 0.0, 0.0)),
     ];
     for rf in refs.iter() {
         let s = rf.s;
@@ -852,8 +907,7 @@ fn run_w5_3d(r: &mut Report) {
             for (an, ax) in [("z", (0.0, 0.0, 1.0)), ("(1,-1,1)", (1.0, -1.0, 1.0))] { for to_point in modes {
                 let total = rot3(ax, 1.0e-8);
                 let d = || format!("3D {}, sample set A ({} points), displacement: rotation of 1e-8 rad about the axis {} through the ORIGIN, guess identity, mode {}", rf.name, base.len(), an, mname(to_point));
-                let o = eval3s(r, rf, &base, &total, &Iso3::identity(), to_point, Some(1e-6), &d);
-                if explore() { eprintln!("NEARID far {} err {:?}", d(), o.err); }
+                eval3s(r, rf, &base, &total, &Iso3::identity(), to_point, Some(1e-9), &d);
             } }
         }
     }
@@ -862,8 +916,9 @@ fn run_w5_3d(r: &mut Report) {
     let rw = ref3("wedge (0,0,0),(6,0,0),(0,4,0),(0,0,3)", &wv, &wf, 1.0, (0.0, 0.0, 0.0));
     let dd = iso3((0.05, -0.03, 0.04), (0.01, -0.02, 0.015));
     for rf in [&rb, &rw] {
-        for n in [31usize, 33, 65, 130, 1001, 4099] { for dev in [false, true] { for to_point in modes {
+        for n in [31usize, 33, 65, 130, 1001, 4099, 16411, 100003] { for dev in [false, true] { for to_point in modes {
             if n > 1000 && !std::ptr::eq(rf, &rb) && !super::thorough() { continue; }
+            if n > 100000 && !super::thorough() { continue; }
             let base = spread3(rf, n, dev);
             let total = about3(&rf.centre, &dd);
             let d = || format!("3D {}, {} points spread over the faces ({}), displacement (0.05,-0.03,0.04) + euler (0.01,-0.02,0.015) about the part centre, guess identity, mode {}", rf.name, n, if dev { "measured, deviations on both sides" } else { "on the faces" }, mname(to_point));
@@ -880,12 +935,13 @@ fn run_w5_3d(r: &mut Report) {
         } } }
         // (4) fewer points than parameters (0 .. 5) and garbage guesses: outside the statement's quantifier for recovery, but
         // "every successful alignment" must still be honest: if Ok, residuals describe the returned transform, RSS <= start
-        for n in [0usize, 1, 2, 3, 5] { for dev in [false, true] { for to_point in modes {
+        // (6 .. 24 points: no recovery demanded either - such a spread need not fix every degree of freedom - but the measured
+        // sets are over-determined, end on non-zero residuals and contain points whose closest mesh point is on an edge)
+        for n in [0usize, 1, 2, 3, 5, 6, 7, 8, 9, 11, 12, 13, 17, 24] { for dev in [false, true] { for to_point in modes {
             let base = spread3(rf, n, dev);
             let total = about3(&rf.centre, &dd);
             let d = || format!("3D {}, only {} point(s) ({}), displacement (0.05,-0.03,0.04) + euler (0.01,-0.02,0.015), guess identity, mode {}", rf.name, n, if dev { "measured" } else { "on the faces" }, mname(to_point));
-            let o = eval3s(r, rf, &base, &total, &Iso3::identity(), to_point, None, &d);
-            if explore() { eprintln!("FEW {} ok {}", d(), o.ok); }
+            eval3s(r, rf, &base, &total, &Iso3::identity(), to_point, None, &d);
         } } }
         let garbage: Vec<(&str, Iso3)> = vec![
             ("translation (50,0,0): the part lies far outside the reference", iso3((50.0, 0.0, 0.0), (0.0, 0.0, 0.0))),
@@ -898,23 +954,21 @@ fn run_w5_3d(r: &mut Report) {
             let base = spread3(rf, 45, dev);
             let total = about3(&rf.centre, &dd);
             let d = || format!("3D {}, 45 points ({}), displacement (0.05,-0.03,0.04) + euler (0.01,-0.02,0.015), starting guess FAR OUTSIDE the basin: {}, mode {}", rf.name, if dev { "measured" } else { "on the faces" }, gn, mname(to_point));
-            let o = eval3s(r, rf, &base, &total, guess, to_point, None, &d);
-            if explore() { eprintln!("GARBAGE {} ok {} err {:?}", d(), o.ok, o.err); }
+            eval3s(r, rf, &base, &total, guess, to_point, None, &d);
         } } }
     }
     // (5) near-identity displacements (1e-8) and displacements towards the edge of the basin, samples on the faces
     for rf in [&rb, &rw] {
         let base = spread3(rf, 60, false);
         for (dn, dd, tol) in [
-            ("near-identity: (1e-8,-2e-8,1.5e-8) + 1e-8 rad about (1,1,1) through the part centre", Iso3::translation(1.0e-8, -2.0e-8, 1.5e-8) * rot3((1.0, 1.0, 1.0), 1.0e-8), 1e-6),
-            ("near-identity: translation (0,0,1e-8)", Iso3::translation(0.0, 0.0, 1.0e-8), 1e-6),
+            ("near-identity: (1e-8,-2e-8,1.5e-8) + 1e-8 rad about (1,1,1) through the part centre", Iso3::translation(1.0e-8, -2.0e-8, 1.5e-8) * rot3((1.0, 1.0, 1.0), 1.0e-8), 1e-9),
+            ("near-identity: translation (0,0,1e-8)", Iso3::translation(0.0, 0.0, 1.0e-8), 1e-9),
             ("edge of the basin: (0.3,-0.2,0.25) + euler (0.1,0.2,0.3) about the part centre", iso3((0.3, -0.2, 0.25), (0.1, 0.2, 0.3)), 1e-6),
             ("edge of the basin: (-0.25,0.3,0.2) + 12 degrees about (1,-2,1) through the part centre", Iso3::translation(-0.25, 0.3, 0.2) * rot3((1.0, -2.0, 1.0), 12.0 * std::f64::consts::PI / 180.0), 1e-6),
         ] { for to_point in modes {
             let total = about3(&rf.centre, &dd);
             let d = || format!("3D {}, 60 points on the faces, displacement {}, guess identity, mode {}", rf.name, dn, mname(to_point));
-            let o = eval3s(r, rf, &base, &total, &Iso3::identity(), to_point, Some(tol), &d);
-            if explore() { eprintln!("NEARID/EDGE {} err {:?}", d(), o.err); }
+            eval3s(r, rf, &base, &total, &Iso3::identity(), to_point, Some(tol), &d);
         } }
     }
 }
@@ -935,6 +989,8 @@ fn run_w5_2d(r: &mut Report) {
         ref2("hook (0,0),(5,0),(5,3),(2,4)", &hook, false, 1.0, (0.0, 0.0)),
         ref2("hook (0,0),(5,0),(5,3),(2,4)", &hook, false, tiny, (0.0, 0.0)),
         ref2("hook (0,0),(5,0),(5,3),(2,4)", &hook, false, 1.0, (16384.0, 8192.0)),
+        ref2("scalene triangle CLOCKWISE (0,0),(2,5),(7,1)", &[(0.0, 0.0), (2.0, 5.0), (7.0, 1.0)], true, 1.0, (0.0, 0.0)),
+        ref2("hook REVERSED (2,4),(5,3),(5,0),(0,0)", &[(2.0, 4.0), (5.0, 3.0), (5.0, 0.0), (0.0, 0.0)], false, 1.0, (0.0, 0.0)),
     ];
     let deg = std::f64::consts::PI / 180.0;
     for rf in refs.iter() {
@@ -960,14 +1016,14 @@ fn run_w5_2d(r: &mut Report) {
             let base = spread2(rf, n, false);
             let total = Iso2::rotation(1.0e-8);
             let d = || format!("2D {}, sample set A ({} points), displacement: rotation of 1e-8 rad about the ORIGIN, guess identity", rf.name, base.len());
-            let o = eval2s(r, rf, &base, &total, &Iso2::identity(), Some(1e-6), &d);
-            if explore() { eprintln!("NEARID far {} err {:?}", d(), o.err); }
+            eval2s(r, rf, &base, &total, &Iso2::identity(), Some(1e-9), &d);
         }
     }
     let dd = Iso2::new(Vector2::new(0.04, -0.03), 0.02);
     for rf in [&refs[4], &refs[7], &ref2("L outline (0,0),(6,0),(6,2),(3,2),(3,4),(0,4)", &l, true, 1.0, (0.0, 0.0))] {
         let total = about2(&rf.centre, &dd);
-        for n in [31usize, 33, 65, 130, 1001, 4099] { for dev in [false, true] {
+        for n in [31usize, 33, 65, 130, 1001, 4099, 16411, 100003] { for dev in [false, true] {
+            if n > 100000 && !super::thorough() { continue; }
             let base = spread2(rf, n, dev);
             let d = || format!("2D {}, {} points spread over the edges ({}), displacement (0.04,-0.03) + 0.02 rad about the part centre, guess identity", rf.name, n, if dev { "measured, deviations on both sides" } else { "on the curve" });
             eval2s(r, rf, &base, &total, &Iso2::identity(), if dev { None } else { Some(1e-6) }, &d);
@@ -979,11 +1035,10 @@ fn run_w5_2d(r: &mut Report) {
             let d = || format!("2D {}, 23 points ({}) followed by {} (46 points, every point twice), displacement (0.04,-0.03) + 0.02 rad, guess identity", rf.name, if dev { "measured" } else { "on the curve" }, if rev { "the same points in reverse order" } else { "the same points again" });
             eval2s(r, rf, &base, &total, &Iso2::identity(), if dev { None } else { Some(1e-6) }, &d);
         } }
-        for n in [0usize, 1, 2] { for dev in [false, true] {
+        for n in [0usize, 1, 2, 3, 4, 5, 7, 9, 12] { for dev in [false, true] {
             let base = spread2(rf, n, dev);
             let d = || format!("2D {}, only {} point(s) ({}), displacement (0.04,-0.03) + 0.02 rad, guess identity", rf.name, n, if dev { "measured" } else { "on the curve" });
-            let o = eval2s(r, rf, &base, &total, &Iso2::identity(), None, &d);
-            if explore() { eprintln!("FEW {} ok {}", d(), o.ok); }
+            eval2s(r, rf, &base, &total, &Iso2::identity(), None, &d);
         } }
         let garbage: Vec<(&str, Iso2)> = vec![
             ("translation (50,0): the part lies far outside the reference", Iso2::translation(50.0, 0.0)),
@@ -991,30 +1046,33 @@ fn run_w5_2d(r: &mut Report) {
             ("quarter turn about the part centre", about2(&rf.centre, &Iso2::rotation(FRAC_PI_2))),
             ("turn of 2.5 rad about the part centre + (1,1)", Iso2::translation(1.0, 1.0) * about2(&rf.centre, &Iso2::rotation(2.5))),
             ("translation (1e12,0)", Iso2::translation(1.0e12, 0.0)),
+            ("translation (40,60)", Iso2::translation(40.0, 60.0)),
+            ("translation (0,-80) + half turn about the part centre", Iso2::translation(0.0, -80.0) * about2(&rf.centre, &Iso2::rotation(std::f64::consts::PI))),
+            ("translation (-30,2)", Iso2::translation(-30.0, 2.0)),
+            ("translation (3,3)", Iso2::translation(3.0, 3.0)),
+            ("translation (-2,1) + 1 rad about the part centre", Iso2::translation(-2.0, 1.0) * about2(&rf.centre, &Iso2::rotation(1.0))),
         ];
         for (gn, guess) in garbage.iter() { for dev in [false, true] {
             let base = spread2(rf, 30, dev);
             let d = || format!("2D {}, 30 points ({}), displacement (0.04,-0.03) + 0.02 rad, starting guess FAR OUTSIDE the basin: {}", rf.name, if dev { "measured" } else { "on the curve" }, gn);
-            let o = eval2s(r, rf, &base, &total, guess, None, &d);
-            if explore() { eprintln!("GARBAGE {} ok {} err {:?}", d(), o.ok, o.err); }
+            eval2s(r, rf, &base, &total, guess, None, &d);
         } }
         let base = spread2(rf, 40, false);
         for (dn, dd, tol) in [
-            ("near-identity: (1e-8,-2e-8) + 1e-8 rad about the part centre", Iso2::new(Vector2::new(1.0e-8, -2.0e-8), 1.0e-8), 1e-6),
-            ("near-identity: translation (0,1e-8)", Iso2::translation(0.0, 1.0e-8), 1e-6),
+            ("near-identity: (1e-8,-2e-8) + 1e-8 rad about the part centre", Iso2::new(Vector2::new(1.0e-8, -2.0e-8), 1.0e-8), 1e-9),
+            ("near-identity: translation (0,1e-8)", Iso2::translation(0.0, 1.0e-8), 1e-9),
             ("edge of the basin: (0.3,-0.2) + 10 degrees about the part centre", Iso2::new(Vector2::new(0.3, -0.2), 10.0 * deg), 1e-6),
             ("edge of the basin: (-0.2,0.3) - 15 degrees about the part centre", Iso2::new(Vector2::new(-0.2, 0.3), -15.0 * deg), 1e-6),
         ] {
             let total = about2(&rf.centre, &dd);
             let d = || format!("2D {}, 40 points on the curve, displacement {}, guess identity", rf.name, dn);
-            let o = eval2s(r, rf, &base, &total, &Iso2::identity(), Some(tol), &d);
-            if explore() { eprintln!("NEARID/EDGE {} err {:?}", d(), o.err); }
+            eval2s(r, rf, &base, &total, &Iso2::identity(), Some(tol), &d);
         }
     }
 }
 
 pub fn run() -> Option<Report> {
-    let mut r = Report::new("3D: box 4x3x2, sample sets A (54 points on the faces) and B (lifted 0.02..0.08 off the faces + 6 edge-closest points + 2 bit-identical repeats), 6 displacements (translations <= 0.05, rotations <= 3 degrees, one of size 3e-5) x 4 starting guesses (identity, small, pitch exactly -90 / +90 degrees plus roll) x {ToPlane, ToPoint}; 2D: closed L outline and 4x3 rectangle, sets A (7 points per edge) and B (offset -0.03..0.03 along the normal + 2 corner-closest points + 2 repeats), 6 displacements x 2 guesses; ROUND 2 (same clauses, same shapes): starting guesses with large rotations - 3D: 11 guesses with roll / pitch / yaw near +-pi and +-pi/2 (roll and yaw +-(pi-0.02) with the answer at +-(pi+0.03) so that the euler parameter crosses +-pi during the solve, roll exactly pi, yaw exactly -pi, pitch pi-0.02, quarter turns, mixed) x 8 small corrections (<= 0.05 units, <= 0.05 rad) x both sample sets x both modes; 2D: part turned by +-90, +-120, +-135, +-170, +-175, 180 degrees x 3 guesses within (0.05, 3 degrees) of the correction; far-away parts - 3D: 4 displacements of 54 .. 540 units (10x .. 100x the part size) x 2 guesses within 0.2 units / 3 degrees x both modes, 2D: 4 displacements of 72 .. 720 units x 2 guesses; exactly representable configurations (dyadic samples, pure dyadic translations, identity / dyadic translation guesses; several end with all residuals exactly 0.0 after one solver step): 3D 5 x 3 x both modes, 2D 6 per shape; large sample sets: 3D 4374 points (27x27 grid per face up to 1/64 from the edges) in both modes, 2D 4200 points on the L outline; ROUND 3: MINIMAL sample sets (as many residuals as parameters) - 3D: 6 points in the 3-2-1 locating scheme on three mutually orthogonal faces of the box (3 arrangements, every point >= 0.5 from the edges of its face) and one 7-point control x 3 displacements (<= 0.05 units, <= 2 degrees) x 2 guesses x both modes; 2D: 3 points 2-1 on two perpendicular edges (2 arrangements per outline) and one 4-point control x 3 displacements x 2 guesses: the set is accepted (Ok), recovered within 1e-6 and the residual clauses hold; ROUND 4: OPEN references - L bracket (plates 10x6 and 4x6 sharing a fold; 182 samples incl. points on the free edges; ToPoint) and a corner of three plates (104 samples; both modes) x 4 displacements (slides 0.4 / -0.25 along the fold line = in the plane of both plates, two small general motions), guess identity; VERY far displacements - 3D box: (4e5,-3e5,2e5) and (-1e6,0,5e5) with rotations x 2 guesses within 0.2 units / 6 degrees x both modes, 2D: (3e5,-2e5), (-1e6,4e5), (2.5e5,2.5e5) with rotations x 2 guesses within 0.25 units / 8 degrees on both outlines; recovery tolerance 1e-6, residual tolerance 1e-9 relative");
+    let mut r = Report::new("3D: box 4x3x2, sample sets A (54 points on the faces) and B (lifted 0.02..0.08 off the faces + 6 edge-closest points + 2 bit-identical repeats), 6 displacements (translations <= 0.05, rotations <= 3 degrees, one of size 3e-5) x 4 starting guesses (identity, small, pitch exactly -90 / +90 degrees plus roll) x {ToPlane, ToPoint}; 2D: closed L outline and 4x3 rectangle, sets A (7 points per edge) and B (offset -0.03..0.03 along the normal + 2 corner-closest points + 2 repeats), 6 displacements x 2 guesses; ROUND 2 (same clauses, same shapes): starting guesses with large rotations - 3D: 11 guesses with roll / pitch / yaw near +-pi and +-pi/2 (roll and yaw +-(pi-0.02) with the answer at +-(pi+0.03) so that the euler parameter crosses +-pi during the solve, roll exactly pi, yaw exactly -pi, pitch pi-0.02, quarter turns, mixed) x 8 small corrections (<= 0.05 units, <= 0.05 rad) x both sample sets x both modes; 2D: part turned by +-90, +-120, +-135, +-170, +-175, 180 degrees x 3 guesses within (0.05, 3 degrees) of the correction; far-away parts - 3D: 4 displacements of 54 .. 540 units (10x .. 100x the part size) x 2 guesses within 0.2 units / 3 degrees x both modes, 2D: 4 displacements of 72 .. 720 units x 2 guesses; exactly representable configurations (dyadic samples, pure dyadic translations, identity / dyadic translation guesses; several end with all residuals exactly 0.0 after one solver step): 3D 5 x 3 x both modes, 2D 6 per shape; large sample sets: 3D 4374 points (27x27 grid per face up to 1/64 from the edges) in both modes, 2D 4200 points on the L outline; ROUND 3: MINIMAL sample sets (as many residuals as parameters) - 3D: 6 points in the 3-2-1 locating scheme on three mutually orthogonal faces of the box (3 arrangements, every point >= 0.5 from the edges of its face) and one 7-point control x 3 displacements (<= 0.05 units, <= 2 degrees) x 2 guesses x both modes; 2D: 3 points 2-1 on two perpendicular edges (2 arrangements per outline) and one 4-point control x 3 displacements x 2 guesses: the set is accepted (Ok), recovered within 1e-6 and the residual clauses hold; ROUND 4: OPEN references - L bracket (plates 10x6 and 4x6 sharing a fold; 182 samples incl. points on the free edges; ToPoint) and a corner of three plates (104 samples; both modes) x 4 displacements (slides 0.4 / -0.25 along the fold line = in the plane of both plates, two small general motions), guess identity; VERY far displacements - 3D box: (4e5,-3e5,2e5) and (-1e6,0,5e5) with rotations x 2 guesses within 0.2 units / 6 degrees x both modes, 2D: (3e5,-2e5), (-1e6,4e5), (2.5e5,2.5e5) with rotations x 2 guesses within 0.25 units / 8 degrees on both outlines; recovery tolerance 1e-6, residual tolerance 1e-9 relative; WAVE 5 (tolerances scaled with the reference, recovery measured at the sample points): box 4x3x2 and right-angled wedge 6/4/3 (slanted face; also reversed and mixed winding) scaled by 2^-12 / 1 / 2^10 and moved up to (1048576,-524288,262144), L outline / scalene triangle (CCW, CW) / OPEN hook polyline scaled and moved likewise: sets A (on the reference) and B (deviations on both sides, points diagonally off an edge / beyond a vertex, one repeat) x 5 (3D) / 4 (2D) displacements about the part centre x 2 guesses x both modes; rotation of 1e-8 rad about the ORIGIN for the far references (tolerance 1e-9); sample counts 31, 33, 65, 130, 1001, 4099, 16411 (100003: thorough tier) clean and measured; every point twice (same order / reversed); near-identity displacements 1e-8 (tolerance 1e-9) and 10 .. 15 degrees + 0.3 (tolerance 1e-6); exact dyadic translation answer as starting guess (no solver step); honesty only (residual / RSS / finiteness clauses if Ok): 0 .. 24 points, starting guesses far outside the basin (translations 50 .. 1e12, quarter / half turns)");
     run3(&mut r);
     run2(&mut r);
     run3_round2(&mut r);
@@ -1023,5 +1081,6 @@ pub fn run() -> Option<Report> {
     run_open_and_far(&mut r);
     run_w5_3d(&mut r);
     run_w5_2d(&mut r);
+    run_w5_zero(&mut r);
     Some(r)
 }
